@@ -12,7 +12,7 @@ mod chainrep;
 use chainrep::*;
 
 const MATURITY: u64 = 3;
-const N_INVALID_KINDS: u64 = 30;
+const N_INVALID_KINDS: u64 = 37;
 
 #[derive(Clone, Default)]
 struct AState {
@@ -499,6 +499,9 @@ impl Gen {
 		if kind == 29 {
 			txs.clear();
 		}
+		if kind == 32 {
+			delta = 1;
+		}
 		let mut b = self.kit.assemble_full(parent, diff, &txs, delta, cb_key, kind == 22).ok()?;
 		let prev = self.kit.blks[parent].block.header.clone();
 		match kind {
@@ -568,6 +571,89 @@ impl Gen {
 				b.header.prev_root = Hash::from_vec(&v);
 				tags.push("hdr:InvalidRoot".into());
 				label = "prev-root-wrong";
+			}
+			30..=36 => {
+				// TWO faults in one block: the verdict must be the FIRST failing stage of the code's
+				// order (`want:` = the expected error class, checked on the implementation at delivery;
+				// the model ranks the faults: Model/ChainBodyOrder.lean)
+				let bad_sig = |b: &mut Block, tags: &mut Vec<String>, sig: grin_util::secp::Signature| {
+					let k = b.body.kernels.len() - 1;
+					b.body.kernels[k].excess_sig = sig;
+					b.body.kernels.sort_unstable();
+					tags.push("body:Block:Transaction:IncorrectSignature".into());
+				};
+				let donor = self.kit.blks[parent].block.kernels()[0].excess_sig.clone();
+				if b.body.outputs.len() < 2 {
+					return None;
+				}
+				match kind {
+					30 => {
+						bad_sig(&mut b, &mut tags, donor);
+						b.body.outputs.swap(0, 1);
+						tags.push("body:Block:Transaction:Serialization".into());
+						tags.push("want:Block:Transaction:Serialization".into());
+						label = "two-faults:signature+unsorted-outputs";
+					}
+					31 => {
+						bad_sig(&mut b, &mut tags, donor);
+						let p0 = b.body.outputs[0].proof;
+						b.body.outputs[0].proof = b.body.outputs[1].proof;
+						b.body.outputs[1].proof = p0;
+						tags.push("body:Block:Transaction:Secp".into());
+						tags.push("want:Block:Transaction:Secp".into());
+						label = "two-faults:signature+rangeproofs-swapped";
+					}
+					32 => {
+						bad_sig(&mut b, &mut tags, donor);
+						tags.push("want:Block:Transaction:IncorrectSignature".into());
+						label = "two-faults:coinbase-claim+signature";
+					}
+					33 => {
+						use grin_core::core::pmmr::{insertion_to_pmmr_index, n_leaves};
+						b.header.kernel_mmr_size = insertion_to_pmmr_index(n_leaves(b.header.kernel_mmr_size) + 1);
+						let mut v = b.header.kernel_root.to_vec();
+						v[7] ^= 1;
+						b.header.kernel_root = Hash::from_vec(&v);
+						tags.push("late:InvalidRoot".into());
+						tags.push("want:InvalidRoot".into());
+						label = "two-faults:kernel-size-field+kernel-root";
+					}
+					34 => {
+						b.header.timestamp = prev.timestamp;
+						b.body.outputs.swap(0, 1);
+						tags.push("body:Block:Transaction:Serialization".into());
+						tags.push("want:InvalidBlockTime".into());
+						label = "two-faults:timestamp+unsorted-outputs";
+					}
+					35 => {
+						// the block spends an output it creates (cut-through) AND two proofs are swapped
+						let own = b.body.outputs.iter().find(|o| !o.is_coinbase())?.commitment();
+						let mut v: Vec<grin_core::core::CommitWrapper> = b.inputs().into();
+						v.push(grin_core::core::CommitWrapper::from(own));
+						v.sort_unstable();
+						b.body.inputs = grin_core::core::transaction::Inputs::CommitOnly(v);
+						let p0 = b.body.outputs[0].proof;
+						b.body.outputs[0].proof = b.body.outputs[1].proof;
+						b.body.outputs[1].proof = p0;
+						tags.push("body:Block:Transaction:Secp".into());
+						tags.push("want:Block:Transaction:CutThrough".into());
+						label = "two-faults:cut-through+rangeproofs-swapped";
+					}
+					_ => {
+						// the same input twice AND a bad signature
+						let mut v: Vec<grin_core::core::CommitWrapper> = b.inputs().into();
+						if v.is_empty() {
+							return None;
+						}
+						let first = v[0].clone();
+						v.push(first);
+						v.sort_unstable();
+						b.body.inputs = grin_core::core::transaction::Inputs::CommitOnly(v);
+						bad_sig(&mut b, &mut tags, donor);
+						tags.push("want:Block:Transaction:Serialization".into());
+						label = "two-faults:input-twice+signature";
+					}
+				}
 			}
 			26 | 27 | 28 | 29 => {
 				// header size fields off by ONE LEAF, everything else honest (roots computed for the
@@ -970,6 +1056,16 @@ fn run_history(out: &mut Out, rng: &mut Rng, work: &str, hist: usize, big: bool)
 							hist, name, i, r, sl
 						));
 					}
+					if let Some(w) = kit.blks[*i].tags.iter().find(|t| t.starts_with("want:")) {
+						let want = format!("err:{}", &w[5..]);
+						*g_stats.entry(format!("two-faults:{}:{}", kit.blks[*i].tags.iter().find(|t| t.starts_with("kind:")).cloned().unwrap_or_default(), r)).or_insert(0) += 1;
+						if r != want && !["err:Orphan", "err:StoreErr", "err:Unfit"].contains(&r.as_str()) {
+							out.raw(&format!(
+								"#ORACLE-FAIL C06 a block with two faults must be refused by the FIRST failing stage of the code's order: hist={} subject={} b{} tags={:?} expected {} got {}",
+								hist, name, i, kit.blks[*i].tags, want, r
+							));
+						}
+					}
 					if !kit.blks[*i].valid && r.starts_with("ok") {
 						out.raw(&format!(
 							"#ORACLE-FAIL C06 invalid block accepted: hist={} subject={} b{} tags={:?} result={}",
@@ -988,11 +1084,46 @@ fn run_history(out: &mut Out, rng: &mut Rng, work: &str, hist: usize, big: bool)
 				}
 				Ev::Reopen => {
 					let roots_before = subj.roots();
+					// start-up (`Chain::init`: setup_head, init_output_pos_index, init_recent_kernel_pos_index)
+					// in whatever relation header head and body head are; half of the time two index entries
+					// of unspent outputs are deleted behind the node's back first, so that
+					// `init_output_pos_index` really has to re-derive position AND height (it reads the
+					// heights through the header MMR) - the `upos` line after this event compares both
+					{
+						let h = subj.c().head().unwrap();
+						let hh = subj.c().header_head().unwrap();
+						let rel = if h.last_block_h == hh.last_block_h { "header-head=body-head" } else if hh.height > h.height { "header-head-ahead-or-other-fork" } else { "header-head-behind-or-other-fork" };
+						let mut dropped = 0;
+						// only while the header chain CONTAINS the body head: with the header head on another
+						// fork the repair reads other blocks' sizes at the body's heights and leaves entries
+						// missing (observation reported to the lead; not a registered probe)
+						let body_on_header_chain = subj.c().get_header_by_height(h.height).map(|x| x.hash() == h.last_block_h).unwrap_or(false);
+						if body_on_header_chain && rrng.chance(1, 2) {
+							let u = subj.utxo(kit);
+							if let Ok(mut b) = subj.c().store().batch() {
+								for _ in 0..2 {
+									if !u.is_empty() {
+										let o = *rrng.pick(&u);
+										if b.delete_output_pos_height(&kit.outs[o].commit).is_ok() {
+											dropped += 1;
+										}
+									}
+								}
+								let _ = b.commit();
+							}
+						}
+						*g_stats.entry(format!("startup:{}:index-entries-deleted-first={}", rel, dropped)).or_insert(0) += 1;
+					}
 					let r = match reopen_rec(&mut subj) {
 						Ok(_) => "ok".to_string(),
 						Err(e) => format!("err:{}", e),
 					};
 					out.line(&format!("chain reopen {}", name), &r);
+					if r == "ok" {
+						if let Err(e) = subj.c().validate(true) {
+							out.raw(&format!("#ORACLE-FAIL C01 validate(fast) fails right after a restart: hist={} subject={}: {}", hist, name, error_class(&e)));
+						}
+					}
 					if r == "ok" && subj.roots() != roots_before {
 						out.raw(&format!(
 							"#ORACLE-FAIL C15 state roots (incl. the bitmap root) differ after a restart: hist={} subject={} before={} after={}",
@@ -4804,6 +4935,171 @@ fn run_known(out: &mut Out, rng: &mut Rng, work: &str, thorough: bool) -> BTreeM
 	stats
 }
 
+/// C02 / C08 at chain level: EXACTLY ONE block is rewound (a one-block reorganisation, and
+/// `reset_chain_head` to head-1) and that block spent the output T whose 1-based MMR position is
+/// the previous header's `output_mmr_size`: the LAST output of block N-1, a plain output sorted
+/// after the coinbase, on a lone single-leaf peak when the leaf count is odd (even counts as
+/// controls). T must be unspent again afterwards.
+fn run_lonepeak(out: &mut Out, rng: &mut Rng, work: &str, stats: &mut BTreeMap<String, u64>) {
+	for pad in [3u64, 4, 5, 6, 8] {
+		out.raw("chain reset");
+		let mut kit = Kit::new(&format!("{}/lp_builder{}", work, pad));
+		let mut chain_ids = vec![0usize];
+		let mut ok = true;
+		for _ in 0..pad {
+			match kit.new_block(*chain_ids.last().unwrap(), 1, &[]) {
+				Ok(id) => chain_ids.push(id),
+				Err(e) => {
+					complain(format!("lone-peak script: {}", e));
+					ok = false;
+					break;
+				}
+			}
+		}
+		if !ok {
+			continue;
+		}
+		// block N-1: spends the coinbase of b1 into ONE plain output T; retried with fresh keys
+		// until T sorts after the coinbase output
+		let b1 = chain_ids[1];
+		let cb1 = kit.blks[b1].block.outputs().iter().find(|o| o.is_coinbase()).and_then(|o| kit.by_commit.get(&o.commitment()).cloned());
+		let cb1 = match cb1 {
+			Some(o) => o,
+			None => continue,
+		};
+		let parent = *chain_ids.last().unwrap();
+		let v = kit.outs[cb1].value;
+		let mut nm1: Option<(usize, usize)> = None;
+		for _try in 0..12 {
+			let before = kit.outs.len();
+			let tx = match kit.build_tx(&TxSpec { inputs: vec![cb1], outputs: vec![(v - 1, None)], kernel: KSpec::Plain(1) }) {
+				Ok(t) => t,
+				Err(_) => break,
+			};
+			let t_id = before;
+			let b = match kit.assemble(parent, 1, &[tx], 0) {
+				Ok(b) => b,
+				Err(_) => break,
+			};
+			let last_is_t = b.outputs().last().map(|o| !o.is_coinbase()).unwrap_or(false);
+			if !last_is_t {
+				*stats.entry("lonepeak:retry-because-the-coinbase-sorted-last".into()).or_insert(0) += 1;
+				continue;
+			}
+			match kit.builder().process_block(b.clone(), grin_chain::Options::SKIP_POW) {
+				Ok(_) => {
+					let id = kit.record(b, parent, vec![], true);
+					nm1 = Some((id, t_id));
+				}
+				Err(e) => complain(format!("lone-peak script, block N-1: {}", error_class(&e))),
+			}
+			break;
+		}
+		let (nm1, t_id) = match nm1 {
+			Some(x) => x,
+			None => {
+				*stats.entry("lonepeak:no-block-with-T-last".into()).or_insert(0) += 1;
+				continue;
+			}
+		};
+		let tv = kit.outs[t_id].value;
+		let n = match kit.new_block(nm1, 1, &[TxSpec { inputs: vec![t_id], outputs: vec![(tv - 1, None)], kernel: KSpec::Plain(1) }]) {
+			Ok(id) => id,
+			Err(e) => {
+				complain(format!("lone-peak script, block N: {}", e));
+				continue;
+			}
+		};
+		let n2 = match kit.new_block(nm1, 7, &[]) {
+			Ok(id) => id,
+			Err(e) => {
+				complain(format!("lone-peak script, block N': {}", e));
+				continue;
+			}
+		};
+		for l in kit.out_lines(0) {
+			out.raw(&l);
+		}
+		for id in 0..kit.blks.len() {
+			out.raw(&kit.blk_line(id));
+		}
+		let kit = &kit;
+		let leaves = grin_core::core::pmmr::n_leaves(kit.blks[nm1].block.header.output_mmr_size);
+		let prev_size = kit.blks[nm1].block.header.output_mmr_size;
+		let path: Vec<usize> = chain_ids[1..].iter().cloned().chain(std::iter::once(nm1)).collect();
+		let check_t = |out: &mut Out, s: &Subject, name: &str, stage: &str, winning: &[usize], stats: &mut BTreeMap<String, u64>| {
+			let unspent = s.c().get_unspent(kit.outs[t_id].commit).ok().flatten();
+			let at_last = unspent.map(|(_, cp)| cp.pos == prev_size).unwrap_or(false);
+			*stats.entry(format!("lonepeak:leaves-after-N-1={}({}):{}:T-unspent={}:T-at-position-of-prev-size={}", leaves, if leaves % 2 == 1 { "lone-peak" } else { "even" }, stage, unspent.is_some(), at_last)).or_insert(0) += 1;
+			let fresh = Subject::new(&format!("{}/lp_fresh_{}_{}_{}", work, pad, name, stage), &kit.genesis);
+			for i in winning {
+				let _ = fresh.deliver_block(&kit.blks[*i].block);
+			}
+			let tx_ok = make_tx(&kit.kc, &[(tv, kit.outs[t_id].key_id.clone(), false)], &[(tv - 1, grin_keychain::ExtKeychainPath::new(3, 9, pad as u32, 0, 0).to_identifier())], grin_core::core::KernelFeatures::Plain { fee: 1u32.into() })
+				.ok()
+				.map(|tx| match s.c().validate_tx(&tx) {
+					Ok(_) => "ok".to_string(),
+					Err(e) => format!("err:{}", error_class(&e)),
+				})
+				.unwrap_or("ok".to_string());
+			out.line(&format!("chain txval {} ins=[o{}] outs=[] kers=[p:1]", name, t_id), &tx_ok);
+			let vf = match s.c().validate(true) {
+				Ok(_) => "ok".to_string(),
+				Err(e) => format!("err:{}", error_class(&e)),
+			};
+			out.line(&format!("chain validate {}", name), &vf);
+			let strip = |x: &str| -> String { x.split(' ').filter(|t| !t.starts_with("hhead=")).collect::<Vec<_>>().join(" ") };
+			if unspent.is_none() || tx_ok != "ok" || strip(&s.obs(kit)) != strip(&fresh.obs(kit)) || s.roots() != fresh.roots() {
+				out.raw(&format!(
+					"#ORACLE-FAIL C02 exactly one block (b{}) was rewound ({}); it spent o{}, the last output of b{} at MMR position {} = output_mmr_size of that header ({} leaves): unspent again={} validate_tx of a spend={}; node [{} {}] fresh node on the winning path [{} {}]",
+					n, stage, t_id, nm1, prev_size, leaves, unspent.is_some(), tx_ok, s.obs(kit), s.roots(), fresh.obs(kit), fresh.roots()
+				));
+			}
+		};
+		// (a) one-block reorganisation: N replaced by the heavier N'
+		{
+			let sp = new_rec_subject(&format!("{}/lp_sp{}", work, pad), &kit.genesis);
+			out.raw("chain new sp");
+			for i in path.iter().chain(std::iter::once(&n)) {
+				let r = sp.deliver_block(&kit.blks[*i].block);
+				out.line(&format!("chain deliver sp b{}", i), &r);
+			}
+			out.line("chain obs sp", &sp.obs(kit));
+			let r = sp.deliver_block(&kit.blks[n2].block);
+			out.line(&format!("chain deliver sp b{}", n2), &r);
+			out.line("chain obs sp", &sp.obs(kit));
+			let mut winning = path.clone();
+			winning.push(n2);
+			check_t(out, &sp, "sp", "one-block-reorg", &winning, stats);
+			discard_status();
+		}
+		// (b) reset_chain_head to head-1, then N again
+		{
+			let sq = new_rec_subject(&format!("{}/lp_sq{}", work, pad), &kit.genesis);
+			out.raw("chain new sq");
+			for i in path.iter().chain(std::iter::once(&n)) {
+				let r = sq.deliver_block(&kit.blks[*i].block);
+				out.line(&format!("chain deliver sq b{}", i), &r);
+			}
+			let rh = rng.chance(1, 2);
+			let th = kit.blks[nm1].block.header.clone();
+			let r = match sq.c().reset_chain_head(grin_chain::Tip::from_header(&th), rh) {
+				Ok(_) => "ok".to_string(),
+				Err(e) => format!("err:{}", error_class(&e)),
+			};
+			out.line(&format!("chain resethead sq b{} hdrs={}", nm1, if rh { 1 } else { 0 }), &r);
+			out.line("chain obs sq", &sq.obs(kit));
+			check_t(out, &sq, "sq", "reset-to-head-1", &path, stats);
+			let r = sq.deliver_block(&kit.blks[n].block);
+			out.line(&format!("chain deliver sq b{}", n), &r);
+			out.line("chain obs sq", &sq.obs(kit));
+			discard_status();
+		}
+		let _ = std::fs::remove_dir_all(work);
+		let _ = std::fs::create_dir_all(work);
+	}
+}
+
 fn main() {
 	quiet_panics();
 	setup_globals();
@@ -4828,7 +5124,8 @@ fn main() {
 		return;
 	}
 	if args.get(1).map(|s| s == "known").unwrap_or(false) {
-		let st = run_known(&mut out, &mut rng, &work, thorough);
+		let mut st = run_known(&mut out, &mut rng, &work, thorough);
+		run_lonepeak(&mut out, &mut rng, &work, &mut st);
 		for (k, v) in st {
 			out.raw(&format!("#STAT {}={}", k, v));
 		}
